@@ -124,6 +124,13 @@ var Lexical = []Family{
 	{"parens_over_limit", func(n int) string { k := n / 2; return "SELECT " + strings.Repeat("(", k) + "1" + strings.Repeat(")", k) }},
 	{"non_ascii", func(n int) string { return "SELECT " + rep("'é😀', ", n) + "1" }},
 	{"crlf_lines", func(n int) string { return "SELECT\r\n" + rep("a,\r\n", n) + "b FROM t" }},
+	// long lexemes: close to the byte limit while still under the token limit
+	{"long_identifiers_list", func(n int) string { return "SELECT " + repIndexed("a_rather_long_column_name_{i}, ", n) + "z FROM t" }},
+	{"long_literals_list", func(n int) string { return "SELECT " + repIndexed("'a string literal of some length {i}', ", n) + "1" }},
+	{"wide_statements", func(n int) string {
+		return repIndexed("INSERT INTO some_table_name_{i} (first_column_name, second_column_name) VALUES ('a fairly long literal value number {i}', 'and another one of similar length');\n", n)
+	}},
+	{"long_comment_lines", func(n int) string { return repIndexed("-- a comment line that goes on for a while, number {i}\nSELECT {i};\n", n) }},
 	// every repetition a different lexeme
 	{"distinct_identifiers", func(n int) string { return "SELECT " + repIndexed("col{i}, ", n) + "z FROM t" }},
 	{"distinct_qualified", func(n int) string { return "SELECT " + repIndexed("t{i}.c{i}, ", n) + "z FROM t" }},
